@@ -25,6 +25,7 @@ type Outcome struct {
 	Nontrivial bool   // e.g. at least two threads really overlapped
 	Violations []Violation
 	Broken     string // harness failure (replay divergence ...): never a verdict
+	Pruned     bool   // cut by the sleep sets (redundant permutation): not judged, not counted
 }
 
 // RunFunc runs one execution that replays prefix and takes default choices afterwards.
@@ -37,6 +38,7 @@ type Bounds struct {
 	MaxExec     int       // 0 = unlimited
 	Deadline    time.Time // zero = none
 	StopAtFirst bool
+	POR         bool // sleep-set partial-order reduction
 }
 
 // Stats of a (sub)search.
@@ -50,6 +52,7 @@ type Stats struct {
 	Capped     bool           `json:"capped"`
 	Broken     string         `json:"broken,omitempty"`
 	ViolCount  int            `json:"viol_count"`
+	Pruned     int            `json:"pruned"`
 }
 
 func NewStats() *Stats { return &Stats{Outcomes: map[string]int{}} }
@@ -67,6 +70,7 @@ func (s *Stats) Merge(o *Stats) {
 		}
 	}
 	s.ViolCount += o.ViolCount
+	s.Pruned += o.Pruned
 	if o.MaxChoices > s.MaxChoices {
 		s.MaxChoices = o.MaxChoices
 	}
@@ -228,4 +232,207 @@ func (s *Stats) DistinctOutcomes() []string {
 		return keys[i] < keys[j]
 	})
 	return keys
+}
+
+// ---- partial-order reduction (sleep sets) -------------------------------------------------
+
+// PORItem is a subtree root together with the sleep set valid at its branching node.
+type PORItem struct {
+	Prefix  []int            `json:"prefix"`
+	SleepAt int              `json:"sleep_at"`
+	Sleep   []vsched.Sleeper `json:"sleep"`
+}
+
+// RunPORFunc runs one execution with sleep sets enabled.
+type RunPORFunc func(it PORItem) Outcome
+
+func inSleep(sl []vsched.Sleeper, th int) bool {
+	for _, s := range sl {
+		if s.Thread == th {
+			return true
+		}
+	}
+	return false
+}
+
+// costBefore returns the preemptions/deviations spent by the choices before position i.
+func costBefore(tr []vsched.ChoicePoint, i int) (int, int) { return cost(tr, i) }
+
+// SubtreePOR explores the subtree of it depth-first with sleep sets. Sleep sets of later siblings
+// contain the transitions of earlier (fully explored) siblings.
+func SubtreePOR(run RunPORFunc, it PORItem, b Bounds, st *Stats) {
+	exploreNodePOR(run, it, b, st)
+}
+
+// exploreNodePOR returns whether the transition taken at the branching choice of it may be put to
+// sleep for later siblings (it completed and had no effects beyond its announced footprint).
+func exploreNodePOR(run RunPORFunc, it PORItem, b Bounds, st *Stats) (sleepable bool) {
+	if st.Broken != "" || (b.StopAtFirst && st.ViolCount > 0) {
+		return false
+	}
+	if b.MaxExec > 0 && st.Executions >= b.MaxExec {
+		st.Capped = true
+		return false
+	}
+	if !b.Deadline.IsZero() && time.Now().After(b.Deadline) {
+		st.Capped = true
+		return false
+	}
+	o := run(it)
+	recordPOR(st, o)
+	if o.Broken != "" {
+		return false
+	}
+	tr := o.Trace
+	from := len(it.Prefix)
+	if len(tr) < from {
+		if !o.Pruned {
+			st.Broken = fmt.Sprintf("execution shorter (%d choices) than its replay prefix (%d)", len(tr), from)
+		}
+		return false
+	}
+	if from > 0 && from-1 < len(tr) {
+		sleepable = tr[from-1].Kind == "thread" && tr[from-1].Done && !tr[from-1].Wild
+	}
+	p, d := cost(tr, from)
+	for i := from; i < len(tr); i++ {
+		cp := tr[i]
+		np, nd := p, d
+		if cp.Preempt {
+			np++
+		}
+		if cp.Dev {
+			nd++
+		}
+		if np <= b.Preempt && nd <= b.Dev {
+			if cp.Kind == "thread" {
+				done := []vsched.Sleeper{}
+				if cp.Done && !cp.Wild && cp.Chosen < len(cp.Threads) {
+					done = append(done, vsched.Sleeper{Thread: cp.Threads[cp.Chosen]})
+				}
+				for alt := 0; alt < cp.N; alt++ {
+					if alt == cp.Chosen {
+						continue
+					}
+					// alternatives cheaper than the chosen one (index 0 when the default skipped a
+					// sleeping running thread) are asleep by construction; costs apply to alt != 0
+					ap, ad := p, d
+					if alt != 0 && cp.Preempt {
+						ap++
+					}
+					if ap > b.Preempt || ad > b.Dev {
+						continue
+					}
+					th := cp.Threads[alt]
+					if inSleep(cp.Sleep, th) {
+						continue
+					}
+					sl := append(append([]vsched.Sleeper{}, cp.Sleep...), done...)
+					pre := make([]int, i+1)
+					for j := 0; j < i; j++ {
+						pre[j] = tr[j].Chosen
+					}
+					pre[i] = alt
+					if exploreNodePOR(run, PORItem{Prefix: pre, SleepAt: i, Sleep: sl}, b, st) {
+						done = append(done, vsched.Sleeper{Thread: th})
+					}
+				}
+			} else {
+				for alt := 1; alt < cp.N; alt++ {
+					pre := make([]int, i+1)
+					for j := 0; j < i; j++ {
+						pre[j] = tr[j].Chosen
+					}
+					pre[i] = alt
+					exploreNodePOR(run, PORItem{Prefix: pre, SleepAt: i, Sleep: cp.Sleep}, b, st)
+				}
+			}
+		}
+		if cp.Chosen != 0 {
+			if cp.Preempt {
+				p++
+			}
+			if cp.Dev {
+				d++
+			}
+		}
+	}
+	return sleepable
+}
+
+func recordPOR(st *Stats, o Outcome) {
+	if o.Pruned {
+		st.Pruned++
+		if o.Broken != "" && st.Broken == "" {
+			st.Broken = o.Broken
+		}
+		return
+	}
+	record(st, o)
+}
+
+// FrontierPOR expands the tree breadth-first (with the conservative sleep sets available without
+// sibling results) until at least want subtree roots exist.
+func FrontierPOR(run RunPORFunc, b Bounds, want int, st *Stats) []PORItem {
+	queue := []PORItem{{}}
+	for len(queue) > 0 && len(queue) < want {
+		it := queue[0]
+		queue = queue[1:]
+		o := run(it)
+		recordPOR(st, o)
+		if o.Broken != "" || (b.StopAtFirst && st.ViolCount > 0) {
+			return nil
+		}
+		tr := o.Trace
+		from := len(it.Prefix)
+		if len(tr) < from {
+			continue
+		}
+		p, d := cost(tr, from)
+		for i := from; i < len(tr); i++ {
+			cp := tr[i]
+			for alt := 0; alt < cp.N; alt++ {
+				if alt == cp.Chosen {
+					continue
+				}
+				if cp.Kind != "thread" && alt == 0 {
+					continue
+				}
+				ap, ad := p, d
+				if alt != 0 && cp.Preempt {
+					ap++
+				}
+				if cp.Dev && cp.Kind != "thread" {
+					ad++
+				}
+				if ap > b.Preempt || ad > b.Dev {
+					continue
+				}
+				sl := append([]vsched.Sleeper{}, cp.Sleep...)
+				if cp.Kind == "thread" {
+					if inSleep(cp.Sleep, cp.Threads[alt]) {
+						continue
+					}
+					if cp.Done && !cp.Wild && cp.Chosen < len(cp.Threads) {
+						sl = append(sl, vsched.Sleeper{Thread: cp.Threads[cp.Chosen]})
+					}
+				}
+				pre := make([]int, i+1)
+				for j := 0; j < i; j++ {
+					pre[j] = tr[j].Chosen
+				}
+				pre[i] = alt
+				queue = append(queue, PORItem{Prefix: pre, SleepAt: i, Sleep: sl})
+			}
+			if cp.Chosen != 0 {
+				if cp.Preempt {
+					p++
+				}
+				if cp.Dev {
+					d++
+				}
+			}
+		}
+	}
+	return queue
 }
